@@ -12,6 +12,7 @@ import progs
 from common import Check
 
 LOG = []
+POST_OPS = []      # names of the ops post_ops applied to the last case (diagnostics / violation signature only)
 LOCK = threading.Lock()
 
 
@@ -50,8 +51,10 @@ def expected_info(chunks, shape, loc):
 
 def post_ops(rng, y, v):
     """ops applied ABOVE the map_blocks call (they invite pushdowns through it)"""
+    del POST_OPS[:]
     for _ in range(rng.choice([0, 1, 2, 3])):
         op = rng.choice(["slice", "rechunk", "sum", "T", "elem", "swvsum"])
+        POST_OPS.append(op)
         try:
             if op == "slice" and v.ndim:
                 idx = progs.rand_index(rng, v.shape, allow_none=False)
@@ -110,7 +113,7 @@ def run_case(chk, da, rng, it):
     except Exception as e:  # noqa: BLE001
         chk.count("skipped:raises:" + err_sig(e)[:20])
         return
-    desc = {"below": progs.show(p), "variant": variant, "layout_at_call": pre_chunks, "result_shape": tuple(np.shape(got)),
+    desc = {"below": progs.show(p), "variant": variant, "layout_at_call": pre_chunks, "result_shape": tuple(np.shape(got)), "above": list(POST_OPS),
             **{k: v2 for k, v2 in progs.describe(p, g.sources).items() if k == "sources"}}
     chk.case(("mb", progs.show(p), variant, it), nontrivial=len(log) > 1, sample=desc if it < 3 else None)
     chk.count("variant:" + variant)
@@ -149,7 +152,569 @@ def run_case(chk, da, rng, it):
         chk.traces_validated += 1
     if problems:
         chk.violation("; ".join(sorted(set(problems))[:3]), desc, signature={"class": "block-info" if "differs from NumPy" not in problems[0] else "value",
-                                                                          "variant": variant})
+                                                                          "variant": variant,
+                                                                          "stacked_swv_reduction": POST_OPS.count("swvsum") + progs.show(p).count("(swv ") >= 2,
+                                                                          "zero_length_axis": any(s == 0 for s in pre_shape)})
+
+
+# ==========================================================================
+# model correspondence (coq/theories/BlockInfo.v)
+MODEL_HEADER = "From DA Require Import PyBase Rechunk BlockInfo.\nOpen Scope Z_scope.\n"
+
+
+def _f_info(*blocks, block_info=None):
+    return blocks[0]
+
+
+def _f_id(*blocks, block_id=None):
+    return blocks[0]
+
+
+def _f_both(*blocks, block_info=None, block_id=None):
+    return blocks[0]
+
+
+def c_chunks(cs):
+    from common import clist
+    return clist(cs, lambda ax: clist(ax))
+
+
+def c_ochunks(cs):
+    from common import clist, copt
+    import math
+    return clist(cs, lambda ax: clist(ax, lambda v: copt(None if (isinstance(v, float) and math.isnan(v)) else v)))
+
+
+def c_binfo(d):
+    from common import clist, ctuple, cz
+    return ctuple(clist(d["shape"]), clist(d["num-chunks"]),
+                  clist(d["array-location"], lambda p: ctuple(cz(p[0]), cz(p[1]))), clist(d["chunk-location"]))
+
+
+def c_entry(bid, info):
+    from common import clist, ctuple, cz
+    ins = [(k, v) for k, v in info.items() if k is not None]
+    o = info[None]
+    return ctuple(clist(bid), clist(ins, lambda kv: ctuple(cz(kv[0]), c_binfo(kv[1]))),
+                  ctuple(c_binfo(o), clist(o["chunk-shape"])))
+
+
+def c_spec(v):
+    from common import clist, cz
+    return f"(CInt {cz(v)})" if isinstance(v, int) else f"(CTup {clist(v)})"
+
+
+ERR_CODE = {"ValueError": 1, "IndexError": 2, "KeyError": 3}
+
+
+def gen_mb_call(rng, malformed=False):
+    """a map_blocks call description: (arg chunk tuples or None for a scalar, drop_axis, new_axis, chunks)"""
+    from c13 import rand_chunks
+    r = rng.choice([1, 1, 2, 2, 2, 3])
+    main = tuple(rand_chunks(rng, rng.choice([1, 2, 3, 4, 5, 7]), allow_zero=True) for _ in range(r))
+    while 1:
+        nblocks = 1
+        for c in main:
+            nblocks *= len(c)
+        if nblocks <= 16:
+            break
+        main = tuple(c[:2] for c in main)
+    args = [main]
+    for _ in range(rng.choice([0, 0, 1, 1, 2])):
+        kind = rng.choice(["same", "bcast", "lower", "scalar", "regrid"] + (["bad"] if malformed else []))
+        if kind == "scalar":
+            args.insert(rng.randrange(len(args) + 1), None)
+            continue
+        if kind == "same":
+            args.append(main)
+        elif kind == "regrid":      # same block counts, other sizes
+            args.append(tuple(tuple(rng.choice([1, 2, 3]) for _ in c) for c in main))
+        elif kind == "bcast":       # some axes collapsed to one block
+            args.append(tuple((sum(c),) if rng.random() < 0.5 else c for c in main))
+        elif kind == "lower":       # fewer dims, aligned with the trailing axes
+            k = rng.randrange(0, r + 1)
+            args.append(tuple(main[r - k:]))
+        else:                       # inconsistent block counts
+            args.append(tuple(c + (1,) if rng.random() < 0.6 else c for c in main))
+        if rng.random() < 0.3:
+            args.reverse()
+    nd = max(len(a) for a in args if a is not None)
+    drop = []
+    if rng.random() < 0.35 and nd:
+        drop = sorted(set(rng.sample(range(nd), rng.randint(1, nd))))
+        if rng.random() < 0.3:
+            drop = [d - nd for d in drop]
+        if malformed and rng.random() < 0.3:
+            drop.append(rng.choice([nd, -nd - 1]))
+        if rng.random() < 0.15:
+            drop.append(drop[0])
+    n_after = nd - len({d % nd for d in drop if -nd <= d < nd}) if nd else 0
+    new_axis = None
+    if rng.random() < 0.35:
+        k = rng.choice([1, 1, 2])
+        new_axis = sorted(rng.sample(range(n_after + k), k))
+        if malformed and rng.random() < 0.4:
+            new_axis = [a + rng.choice([1, 2, -1, -3]) for a in new_axis]
+        if rng.random() < 0.3:
+            new_axis = new_axis[::-1]
+    chunks = None
+    if rng.random() < 0.3:
+        n_out = n_after + (len(new_axis) if new_axis else 0) + (rng.choice([0, 0, 1]) if new_axis is None else 0)
+        chunks = []
+        for _ in range(n_out):
+            chunks.append(rng.choice([1, 2, 3]) if rng.random() < 0.6 else tuple(rng.choice([1, 2]) for _ in range(rng.choice([1, 2, 3]))))
+        if malformed and rng.random() < 0.3 and chunks:
+            chunks = chunks[:-1]
+        chunks = tuple(chunks)
+    return args, drop, new_axis, chunks
+
+
+def real_map_blocks(da, call, fn):
+    """run the REAL da.map_blocks and read the payloads out of the expression"""
+    from dask.layers import ArrayBlockIdDep, ArrayValuesDep
+    import toolz
+    args, drop, new_axis, chunks = call
+    real_args = []
+    for k, a in enumerate(args):
+        if a is None:
+            real_args.append(7)
+        else:
+            shape = tuple(sum(c) for c in a)
+            real_args.append(da.from_array(np.arange(int(np.prod(shape)), dtype="int64").reshape(shape) + k, chunks=a))
+    kw = {}
+    if drop:
+        kw["drop_axis"] = drop if len(drop) > 1 else drop[0]
+    if new_axis is not None:
+        kw["new_axis"] = new_axis if len(new_axis) != 1 else new_axis[0]
+    if chunks is not None:
+        kw["chunks"] = chunks
+    y = da.map_blocks(fn, *real_args, dtype="int64", **kw)
+    e = y.expr
+    info_dep = id_dep = None
+    for arr, ind in toolz.partition(2, e.args):
+        if isinstance(arr, ArrayValuesDep):
+            info_dep = arr
+        elif isinstance(arr, ArrayBlockIdDep):
+            id_dep = arr
+    return y, e, info_dep, id_dep
+
+
+def oracle_payload(call, y, e, info_dep):
+    """the property itself, brute force: locations enumerate the grid once, intervals tile, shapes agree"""
+    args, drop, new_axis, chunks = call
+    problems = []
+    oc = y.chunks
+    grid = list(itertools.product(*[range(len(c)) for c in oc]))
+    if list(info_dep.values.keys()) != grid:
+        problems.append("payload keys are not the output block grid (each block exactly once, in order)")
+        return problems
+    offs = [np.concatenate([[0], np.cumsum(c)]).astype(int) for c in oc]
+    arr_args = [(i, a) for i, a in enumerate(args) if a is not None]
+    for bid in grid:
+        info = info_dep.values[bid]
+        o = info[None]
+        if tuple(o["chunk-location"]) != bid:
+            problems.append(f"block_info[None]['chunk-location'] {o['chunk-location']} at block {bid}")
+        want_al = [(int(f[i]), int(f[i + 1])) for f, i in zip(offs, bid)]
+        if [tuple(int(v) for v in p) for p in o["array-location"]] != want_al:
+            problems.append(f"block_info[None]['array-location'] {o['array-location']} at {bid}, layout gives {want_al}")
+        if tuple(int(v) for v in o["chunk-shape"]) != tuple(int(c[i]) for c, i in zip(oc, bid)):
+            problems.append(f"block_info[None]['chunk-shape'] {o['chunk-shape']} at {bid}")
+        if tuple(o["shape"]) != tuple(y.shape) or tuple(o["num-chunks"]) != tuple(y.numblocks):
+            problems.append("block_info[None] shape / num-chunks differ from the advertised output")
+        if drop:
+            continue
+        for i, a in arr_args:
+            d = info[i]
+            loc = tuple(d["chunk-location"])
+            if len(loc) != len(a) or any(not (0 <= l < len(c)) for l, c in zip(loc, a)):
+                problems.append(f"block_info[{i}]['chunk-location'] {loc} outside the argument's grid")
+                continue
+            aoffs = [np.concatenate([[0], np.cumsum(c)]).astype(int) for c in a]
+            if [tuple(int(v) for v in p) for p in d["array-location"]] != [(int(f[l]), int(f[l + 1])) for f, l in zip(aoffs, loc)]:
+                problems.append(f"block_info[{i}]['array-location'] {d['array-location']} at {loc}")
+            if tuple(d["shape"]) != tuple(sum(c) for c in a) or tuple(d["num-chunks"]) != tuple(len(c) for c in a):
+                problems.append(f"block_info[{i}] shape / num-chunks differ from the argument's advertised layout")
+    return problems
+
+
+def fam_payload(chk, da, rng):
+    from common import cbool, clist, copt, coq_eval_cases, coq_eval_expr, ctuple, cz
+    import toolz
+    n = 4000 if chk.tier == "thorough" else 300
+    calls = []
+    # corpus: the documentation example layouts, drop/new axis, broadcasting
+    calls += [([((1, 3), (2, 2, 2))], [], None, None), ([((1, 3), (2, 2, 2))], [1], None, None),
+              ([((1, 3), (2, 2, 2))], [], [0], None), ([((2, 2),), ((4,),)], [], None, None),
+              ([((2, 2), (3,)), ((3,),)], [], None, None), ([((2, 2),)], [], None, ((1, 1),)),
+              ([((2, 2),)], [0], [0], (3,)), ([((2, 2),), ((1, 1, 1),)], [], None, None)]
+    for k in range(n):
+        calls.append(gen_mb_call(rng, malformed=(k % 5 == 4)))
+    cases, idcases, depcases, kept = [], [], [], []
+    for call in calls:
+        args, drop, new_axis, chunks = call
+        fn = rng.choice([_f_info, _f_info, _f_both])
+        try:
+            with warnings.catch_warnings():
+                warnings.simplefilter("ignore")
+                y, e, info_dep, id_dep = real_map_blocks(da, call, fn)
+            err = 0
+        except (ValueError, IndexError, KeyError) as ex:
+            err, y = ERR_CODE[type(ex).__name__], None
+        except Exception as ex:  # noqa: BLE001
+            chk.tie_break("correspondence:map_blocks raises an exception the model has no code for",
+                          {"call": repr(call), "error": f"{type(ex).__name__}: {ex}"[:200]})
+            continue
+        chk.count("payload:" + ("error" if err else "ok") + (":drop" if drop else "") + (":new" if new_axis else "") +
+                  (":chunks" if chunks is not None else "") + (":multi" if sum(a is not None for a in args) > 1 else ""))
+        lit_in = ctuple(clist(args, lambda a: copt(a, c_chunks)), clist(drop), copt(new_axis, clist),
+                        copt(chunks, lambda t: clist(t, c_spec)))
+        if err:
+            exp = "None"
+            chk.case(("mbinfo", repr(call)), nontrivial=False)
+        else:
+            if info_dep is None or tuple(info_dep.chunks) != tuple(y.chunks):
+                chk.tie_break("correspondence:ArrayValuesDep missing or built for other chunks than the call advertises",
+                              {"call": repr(call), "advertised": y.chunks, "dep": getattr(info_dep, "chunks", None)})
+                continue
+            entries = [c_entry(bid, info) for bid, info in info_dep.values.items()]
+            exp = "(Some " + ctuple(clist(e.out_ind), c_chunks(y.chunks), clist(entries, lambda x: x)) + ")"
+            chk.case(("mbinfo", repr(call)), nontrivial=len(entries) > 1,
+                     sample={"args_chunks": args, "drop_axis": drop, "new_axis": new_axis, "chunks": chunks,
+                             "out_ind": e.out_ind, "advertised": y.chunks,
+                             "payload[first]": repr(next(iter(info_dep.values.items())))[:300]} if len(kept) < 2 else None)
+            from dask_array._blockwise import Blockwise
+            if type(e) is not Blockwise or e.align_arrays or e.new_axes or not e._requires_grid_preservation(None) \
+                    or len(set(e.out_ind)) != len(e.out_ind):
+                chk.tie_break("correspondence:the Blockwise built by map_blocks is not the grid-sensitive, new_axes-free node the model assumes",
+                              {"call": repr(call), "type": type(e).__name__, "align_arrays": e.align_arrays, "new_axes": e.new_axes})
+            from dask_array._expr import ChunksFreeze
+            for a2, i2 in toolz.partition(2, e.args):
+                if i2 is not None and hasattr(a2, "_name") and not (isinstance(a2, ChunksFreeze) and a2.chunks == a2.array.chunks):
+                    chk.tie_break("correspondence:an array input of a block_info consumer is not wrapped in a ChunksFreeze of its advertised chunks",
+                                  {"call": repr(call), "input": type(a2).__name__})
+            probs = oracle_payload(call, y, e, info_dep)
+            if probs:
+                chk.violation("; ".join(sorted(set(probs))[:3]), {"call": repr(call), "advertised": y.chunks},
+                              signature={"class": "block-info-payload", "drop": bool(drop), "new_axis": bool(new_axis)})
+            # block_id payload
+            if id_dep is not None:
+                grid = list(itertools.product(*[range(len(c)) for c in id_dep.chunks]))
+                idcases.append(ctuple(c_chunks(id_dep.chunks), clist([(g, id_dep[g]) for g in grid], lambda p: ctuple(clist(p[0]), clist(p[1])))))
+                if tuple(id_dep.chunks) != tuple(y.chunks):
+                    chk.violation("ArrayBlockIdDep built for other chunks than advertised", {"call": repr(call)}, signature={"class": "block-id-payload"})
+            # which block the task really hands to the function
+            if not e.concatenate:
+                grid = list(itertools.product(*[range(len(c)) for c in y.chunks]))
+                for pos, (arr, ind) in enumerate(toolz.partition(2, e.args)):
+                    if ind is None or not hasattr(arr, "_name"):
+                        continue
+                    got = []
+                    for g in grid:
+                        try:
+                            got.append(tuple(e._dep_block_id(arr, ind, e._idx_to_block(g))))
+                        except ValueError:
+                            got.append(None)
+                    depcases.append(ctuple(c_chunks(arr.chunks), clist(e.out_ind), clist(list(e.new_axes)),
+                                           clist(list(zip(grid, got)), lambda p: ctuple(clist(p[0]), copt(p[1], clist)))))
+                    # property: the block handed over is the one block_info describes
+                    argpos = [i for i, a in enumerate(args) if a is not None]
+                    k = [i for i, (a2, i2) in enumerate(toolz.partition(2, e.args)) if i2 is not None and hasattr(a2, "_name")].index(pos)
+                    for g, b in zip(grid, got):
+                        told = tuple(info_dep.values[g][argpos[k]]["chunk-location"])
+                        if b is not None and tuple(b) != told:
+                            chk.violation(f"block_info[{argpos[k]}]['chunk-location'] = {told} but the task receives block {b} at output block {g}",
+                                          {"call": repr(call)}, signature={"class": "block-info-vs-task", "multi": True})
+        cases.append(ctuple(lit_in, ctuple(cz(err), exp)))
+        kept.append(call)
+    T = "(list (option (list (list Z))) * list Z * option (list Z) * option (list cspec)) * (Z * option (list Z * list (list Z) * list bentry))"
+    mism, _ = coq_eval_cases(
+        MODEL_HEADER, T,
+        "Definition chk (c : " + T + ") : bool :=\n"
+        "  let '((args, drop, na, ch), (err, exp)) := c in\n"
+        "  match map_blocks_info args drop na ch, exp with\n"
+        "  | MOk (oi, oc, p), Some (oi', oc', p') => (err =? 0) && zlist_eqb oi oi' && zlist2_eqb oc oc' && list_eqb bentry_eqb p p'\n"
+        "  | MErr MBValueError, None => err =? 1\n"
+        "  | MErr MBIndexError, None => err =? 2\n"
+        "  | MErr MBKeyError, None => err =? 3\n"
+        "  | _, _ => false end.", cases, chunk=120)
+    for i in mism[:5]:
+        args, drop, new_axis, chunks = kept[i]
+        model = coq_eval_expr(MODEL_HEADER, [f"(map_blocks_info {clist(args, lambda a: copt(a, c_chunks))} {clist(drop)} {copt(new_axis, clist)} {copt(chunks, lambda t: clist(t, c_spec))})"])[0]
+        chk.tie_break("correspondence:map_blocks block_info payload / out_ind / chunks differ from BlockInfo.map_blocks_info",
+                      {"call": repr(kept[i]), "case": cases[i][:1500], "model": model[:1500]})
+    chk.traces_validated += len(cases) - len(mism)
+    T2 = "list (list Z) * list (list Z * list Z)"
+    mism2, _ = coq_eval_cases(
+        MODEL_HEADER, T2,
+        "Definition chk (c : " + T2 + ") : bool := let '(oc, p) := c in\n"
+        "  list_eqb (fun a b => zlist_eqb (fst a) (fst b) && zlist_eqb (snd a) (snd b)) (block_id_payload oc) p.", idcases)
+    for i in mism2[:3]:
+        chk.tie_break("correspondence:ArrayBlockIdDep values differ from BlockInfo.block_id_payload", {"case": idcases[i][:600]})
+    T3 = "list (list Z) * list Z * list Z * list (list Z * option (list Z))"
+    mism3, _ = coq_eval_cases(
+        MODEL_HEADER, T3,
+        "Definition chk (c : " + T3 + ") : bool := let '(cs, oi, nl, l) := c in\n"
+        "  forallb (fun p => match dep_block_id cs oi nl (fst p), snd p with\n"
+        "                    | Some a, Some b => zlist_eqb a b | None, None => true | _, _ => false end) l.", depcases)
+    for i in mism3[:3]:
+        chk.tie_break("correspondence:Blockwise._dep_block_id differs from BlockInfo.dep_block_id", {"case": depcases[i][:600]})
+    chk.traces_validated += len(idcases) - len(mism2) + len(depcases) - len(mism3)
+    chk.count("payload:block_id_deps", len(idcases))
+    chk.count("payload:dep_block_id_args", len(depcases))
+
+
+def gen_freeze_pair(rng, malformed):
+    """(settled, frozen) layouts; nan = unknown"""
+    from c13 import rand_chunks
+    nan = np.nan
+    r = rng.choice([0, 1, 1, 2, 2, 3])
+    settled = [list(rand_chunks(rng, rng.choice([0, 1, 2, 3, 4, 6]), allow_zero=True)) for _ in range(r)]
+    frozen = [list(c) for c in settled]
+    how = rng.choice(["same", "regrid", "regrid", "nan-frozen", "nan-both", "nan-settled", "sum", "rank", "weird"] if malformed else
+                     ["same", "regrid", "regrid", "regrid", "nan-frozen", "nan-both", "nan-settled"])
+    if how == "regrid":
+        frozen = [list(rand_chunks(rng, sum(c), allow_zero=True)) for c in settled]
+    elif how == "nan-frozen":
+        frozen = [[nan if rng.random() < 0.5 else v for v in (c if rng.random() < 0.5 else rand_chunks(rng, sum(c)))] for c in settled]
+    elif how == "nan-both":
+        for ax in range(r):
+            if rng.random() < 0.6:
+                settled[ax] = [nan if rng.random() < 0.6 else v for v in settled[ax]]
+        frozen = [list(c) for c in settled]
+        if rng.random() < 0.5 and r:
+            ax = rng.randrange(r)
+            frozen[ax] = [nan if rng.random() < 0.5 else (v if rng.random() < 0.7 else 1) for v in frozen[ax]]
+    elif how == "nan-settled":
+        for ax in range(r):
+            if rng.random() < 0.6:
+                settled[ax] = [nan if rng.random() < 0.6 else v for v in settled[ax]]
+        frozen = [list(c) if rng.random() < 0.5 else list(rand_chunks(rng, sum(c))) for c in frozen]
+    elif how == "sum":
+        frozen = [list(rand_chunks(rng, max(0, sum(c) + rng.choice([-1, 0, 1])))) for c in settled]
+    elif how == "rank":
+        if rng.random() < 0.5 and r:
+            frozen = frozen[:rng.randrange(r)]
+        else:
+            frozen = frozen + [[rng.choice([1, 2])] for _ in range(rng.choice([1, 2]))]
+    elif how == "weird" and r:
+        ax = rng.randrange(r)
+        frozen[ax] = rng.choice([[], [-1] + frozen[ax], frozen[ax] + [0]])
+    return tuple(map(tuple, settled)), tuple(map(tuple, frozen)), how
+
+
+def settled_expr(da, settled):
+    """a real expression whose lowered chunks are `settled`"""
+    import math
+    from dask_array._expr import ChunksOverride
+    known = tuple(tuple(0 if (isinstance(v, float) and math.isnan(v)) else v for v in c) for c in settled)
+    shape = tuple(sum(c) for c in known)
+    x = da.from_array(np.zeros(shape, dtype="int64"), chunks=known)
+    if known != settled or any(isinstance(v, float) for c in settled for v in c):
+        return ChunksOverride(x.expr, settled)
+    return x.expr
+
+
+def fam_freeze(chk, da, rng):
+    from common import clist, coq_eval_cases, coq_eval_expr, ctuple
+    from dask_array._expr import ChunksFreeze, _chunks_match
+    from dask_array._rechunk import Rechunk
+    import math
+    n = 8000 if chk.tier == "thorough" else 600
+    pairs = [(((3, 3, 6),), ((6, 6),), "corpus"), (((3, 3, 6),), ((3, 3, 6), (1,)), "corpus"), (((0,),), (), "corpus"),
+             (((np.nan, np.nan),), ((np.nan, np.nan),), "corpus"), (((np.nan, np.nan),), ((2, 2),), "corpus")]
+    for k in range(n):
+        pairs.append(gen_freeze_pair(rng, malformed=(k % 4 == 3)))
+    cases, kept = [], []
+    for settled, frozen, how in pairs:
+        try:
+            child = settled_expr(da, settled)
+        except Exception:  # noqa: BLE001
+            chk.count("freeze:skipped-unbuildable")
+            continue
+        if not _chunks_match(child.chunks, settled):
+            chk.count("freeze:skipped-unbuildable")
+            continue
+        node = ChunksFreeze(child, frozen)
+        try:
+            out = node.lower_once({})
+            if out._name == child._name:
+                res, lit = ("vanish", child.chunks), "FVanish"
+            elif isinstance(out, Rechunk) and out.array._name == child._name:
+                res, lit = ("rechunk", out.chunks), f"(FRechunk {c_ochunks(out.chunks)})"
+            else:
+                res, lit = ("other", type(out).__name__), "(FError FRuntimeError)"
+                chk.tie_break("correspondence:ChunksFreeze.lower_once returned neither the child nor a Rechunk of it",
+                              {"settled": settled, "frozen": frozen, "got": type(out).__name__})
+        except RuntimeError:
+            res, lit = ("error", "RuntimeError"), "(FError FRuntimeError)"
+        except ValueError:
+            res, lit = ("error", "ValueError"), "(FError FValueError)"
+        chk.count(f"freeze:{how}:{res[0]}")
+        chk.case(("freeze", repr(settled), repr(frozen)), nontrivial=res[0] != "vanish",
+                 sample={"fn": "ChunksFreeze.lower_once", "settled": settled, "frozen": frozen, "outcome": res} if len(kept) < 2 else None)
+        # property: the consumer sees the frozen layout, or an error — never another layout
+        if res[0] in ("vanish", "rechunk") and len(frozen) == len(settled) and not _chunks_match(res[1], frozen):
+            chk.violation(f"ChunksFreeze lowered to layout {res[1]} although {frozen} was frozen",
+                          {"settled": settled, "frozen": frozen}, signature={"class": "freeze-not-restored"})
+        cases.append(ctuple(c_ochunks(frozen), c_ochunks(settled), lit))
+        kept.append((settled, frozen, res))
+    T = "ochunks * ochunks * freeze_out"
+    mism, _ = coq_eval_cases(MODEL_HEADER, T,
+                             "Definition chk (c : " + T + ") : bool := let '(fr, se, o) := c in freeze_out_eqb (chunks_freeze_lower fr se) o.", cases)
+    for i in mism[:5]:
+        settled, frozen, res = kept[i]
+        model = coq_eval_expr(MODEL_HEADER, [f"(chunks_freeze_lower {c_ochunks(frozen)} {c_ochunks(settled)})"])[0]
+        chk.tie_break("correspondence:ChunksFreeze.lower_once differs from BlockInfo.chunks_freeze_lower",
+                      {"settled": settled, "frozen": frozen, "impl": res, "model": model})
+    chk.traces_validated += len(cases) - len(mism)
+
+
+def fam_gate(chk, da, rng):
+    """_preserve_grid_contract / _requires_grid_preservation on real nodes"""
+    import weakref
+    from common import cbool, clist, coq_eval_cases, ctuple
+    from dask_array._blockwise import Blockwise
+    from dask_array._expr import ChunksOverride
+    from dask_array._map_blocks import MapBlocksOutput
+    n = 3000 if chk.tier == "thorough" else 300
+    cases, kept = [], []
+    keep_alive = []
+    for it in range(n):
+        shape = (rng.choice([2, 3, 4, 6]), rng.choice([2, 3, 4]))
+        ch = tuple(progs.rand_chunks_for(rng, s) for s in shape)
+        x = da.from_array(np.arange(shape[0] * shape[1]).reshape(shape), chunks=ch)
+        self_kind = rng.choice(["elemwise", "fromarray", "transpose", "rechunk", "mapblocks"])
+        if self_kind == "elemwise":
+            s = x + 1
+        elif self_kind == "fromarray":
+            s = x
+        elif self_kind == "transpose":
+            s = x.T
+        elif self_kind == "rechunk":
+            s = (x + 1).rechunk(tuple(progs.rand_chunks_for(rng, d) for d in shape))
+        else:
+            s = da.map_blocks(_f_info, x, dtype=x.dtype)
+        self_node = s.expr
+        op = rng.choice(["slice", "rechunk"])
+        if op == "slice":
+            par = s[: rng.randint(1, s.shape[0])]
+        else:
+            par = s.rechunk(tuple(progs.rand_chunks_for(rng, d) for d in s.shape))
+        parent = par.expr
+        if parent._name == self_node._name:
+            continue
+        # dependents of `parent`
+        deps = []
+        for _ in range(rng.choice([0, 1, 1, 2])):
+            dk = rng.choice(["mapblocks", "mapblocks", "elemwise", "blockwise-aligned", "sum", "mbout"])
+            if dk == "mapblocks":
+                d = da.map_blocks(_f_info, par, dtype=par.dtype).expr
+            elif dk == "elemwise":
+                d = (par * 2).expr
+            elif dk == "blockwise-aligned":
+                d = da.blockwise(lambda b: b, "ij", par, "ij", dtype=par.dtype).expr
+            elif dk == "sum":
+                d = par.sum(axis=0).expr
+            else:
+                d = MapBlocksOutput(lambda spec, b: {"a": b}, "a", (0, 1), par.chunks, par.dtype, None, f"mbo-{it}", f"mbo-{it}-shared",
+                                    (0, 1), ((0, 1),), {}, parent)
+            deps.append(d)
+        keep_alive.append(deps)
+        dependents = {parent._name: [weakref.ref(d) for d in deps]}
+        # candidate result of the pushdown
+        rk = rng.choice(["none", "same", "same", "other", "nan-same", "nan-fresh", "nan-vs-known"])
+        nan_same = True
+        pc = parent.chunks
+        if rk == "none":
+            result, rc = None, None
+        elif rk == "same":
+            result = da.from_array(np.zeros(par.shape, dtype="int64"), chunks=pc).expr
+        elif rk == "other":
+            result = da.from_array(np.zeros(par.shape, dtype="int64"), chunks=tuple(progs.rand_chunks_for(rng, d) for d in par.shape)).expr
+        else:
+            # parent and result with unknown sizes on axis 0
+            nanp = np.nan
+            pch = ((nanp,) * len(pc[0]),) + tuple(pc[1:])
+            parent = ChunksOverride(parent, pch)
+            dependents = {parent._name: [weakref.ref(d) for d in deps]}
+            if rk == "nan-same":
+                rch = ((nanp,) * len(pc[0]),) + tuple(pc[1:])
+            elif rk == "nan-fresh":
+                rch = (tuple(float("nan") for _ in pc[0]),) + tuple(pc[1:])
+                nan_same = False
+            else:
+                rch = pc
+            result = ChunksOverride(da.from_array(np.zeros(par.shape, dtype="int64"), chunks=pc).expr, rch)
+        if result is not None:
+            # the oracle is read off the real objects: the expression registry may hand back an earlier, equal-token
+            # ChunksOverride whose nan entries ARE the np.nan singleton even though fresh nan objects were passed in
+            import math
+            pairs = [(a, b) for da_, db_ in zip(result.chunks, parent.chunks) for a, b in zip(da_, db_)
+                     if isinstance(a, float) and isinstance(b, float) and math.isnan(a) and math.isnan(b)]
+            nan_same = all(a is b for a, b in pairs)
+        try:
+            out = self_node._preserve_grid_contract(parent, result, dependents)
+        except Exception as ex:  # noqa: BLE001
+            chk.tie_break("correspondence:_preserve_grid_contract raises", {"error": f"{type(ex).__name__}: {ex}"[:200]})
+            continue
+        if out is not None and out is not result:
+            chk.tie_break("correspondence:_preserve_grid_contract returned a third object", {"self": self_kind})
+            continue
+
+        def kind(d):
+            if type(d) is Blockwise:
+                return f"(KBlockwise, {cbool(bool(d.align_arrays))})"
+            if isinstance(d, Blockwise):
+                return "(KElemwiseLike, true)"
+            if isinstance(d, MapBlocksOutput):
+                return "(KMapBlocksOutput, true)"
+            return "(KOther, true)"
+        sens = [bool(d._requires_grid_preservation(parent)) for d in deps]
+        accepted = out is not None
+        chk.count(f"gate:self={self_kind}")
+        chk.count(f"gate:result={rk}:{'sensitive' if any(sens) else 'free'}:{'accept' if accepted else 'decline'}")
+        chk.case(("gate", self_kind, rk, repr(parent.chunks), repr(getattr(result, 'chunks', None)), tuple(type(d).__name__ for d in deps)),
+                 nontrivial=any(sens), sample={"fn": "_preserve_grid_contract", "self": type(self_node).__name__, "parent_chunks": parent.chunks,
+                                               "result_chunks": getattr(result, "chunks", None), "dependents": [type(d).__name__ for d in deps],
+                                               "accepted": accepted} if len(kept) < 2 else None)
+        # property: with a grid-sensitive dependent, an accepted pushdown keeps the chunks
+        if accepted and any(sens):
+            from dask_array._expr import _chunks_match
+            if not _chunks_match(result.chunks, parent.chunks):
+                chk.violation("grid gate accepted a pushdown that changes the chunks seen by a grid-sensitive dependent",
+                              {"parent_chunks": parent.chunks, "result_chunks": result.chunks}, signature={"class": "grid-gate"})
+        res_lit = "None" if result is None else f"(Some (tt, {c_ochunks(result.chunks)}))"
+        cases.append(ctuple(cbool(nan_same), cbool(isinstance(self_node, Blockwise)), clist([kind(d) for d in deps], lambda z: z),
+                            clist([cbool(b) for b in sens], lambda z: z), c_ochunks(parent.chunks), res_lit, cbool(accepted)))
+        kept.append((self_kind, rk))
+    T = "bool * bool * list (node_kind * bool) * list bool * ochunks * option (unit * ochunks) * bool"
+    mism, _ = coq_eval_cases(
+        MODEL_HEADER, T,
+        "Definition chk (c : " + T + ") : bool := let '(ns, sb, deps, sens, pc, r, acc) := c in\n"
+        "  list_eqb Bool.eqb (map (fun d => requires_grid (fst d) (snd d)) deps) sens &&\n"
+        "  Bool.eqb (match preserve_grid_contract ns sb deps pc r with Some _ => true | None => false end) acc.", cases)
+    for i in mism[:5]:
+        chk.tie_break("correspondence:_preserve_grid_contract / _requires_grid_preservation differ from BlockInfo.preserve_grid_contract",
+                      {"case": cases[i][:800], "kinds": kept[i]})
+    chk.traces_validated += len(cases) - len(mism)
+
+
+def run_model_families(chk, da):
+    chk.rule += (" | MODEL: the block_info dictionaries are read out of the ArrayValuesDep operand of the Blockwise that the real "
+                 "da.map_blocks builds (generated chunkings, several inputs, broadcasting, drop_axis, new_axis, chunks=) and every entry, "
+                 "out_ind and the advertised chunks are compared inside Coq with BlockInfo.map_blocks_info; ArrayBlockIdDep values and "
+                 "Blockwise._dep_block_id (the block the task really receives) likewise; ChunksFreeze.lower_once outcomes "
+                 "(vanish / rechunk / RuntimeError / ValueError) on generated (frozen, settled) pairs incl. unknown sizes vs "
+                 "chunks_freeze_lower; _preserve_grid_contract on real nodes vs preserve_grid_contract")
+    chk.assumptions += ["block_info payload model: chunk sizes of map_blocks inputs are known integers (unknown sizes are C28's business)",
+                        "grid gate: Python tuple comparison of nan chunk entries is identity-based; the model takes it as an oracle (nan_same) "
+                        "and C20_gate holds for both oracle values"]
+    import random
+    rng = random.Random(chk.seed * 1000003 + 0xC20)     # own stream: the existing differential cases are unchanged
+    fam_payload(chk, da, rng)
+    fam_freeze(chk, da, rng)
+    fam_gate(chk, da, rng)
 
 
 def run(chk: Check):
@@ -160,6 +725,7 @@ def run(chk: Check):
                 "shape / num-chunks and the shape of the block it received are compared with the layout advertised when map_blocks was "
                 "called; non-trivial = function invoked for more than one block")
     chk.run_proofs()
+    run_model_families(chk, da)
     n = 6000 if chk.tier == "thorough" else 350
     for it in range(n):
         run_case(chk, da, chk.rng, it)
